@@ -6,6 +6,7 @@ import (
 	"os"
 	"os/exec"
 	"path/filepath"
+	"regexp"
 	"sort"
 	"strconv"
 	"strings"
@@ -22,8 +23,20 @@ type CheckDef struct {
 	Trusted     []string `json:"trusted,omitempty"`
 	MinObls     int      `json:"min_obligations"`
 	Bounded     []string `json:"bounded_standins,omitempty"`
+	BoundedRuns []BoundedDef `json:"bounded_runs,omitempty"`
 	ExtraPkgs   []string `json:"extra_packages,omitempty"`
 	Scripts     []string `json:"scripts,omitempty"` // auxiliary deductive checks (name registered in scripts.go)
+}
+
+// BoundedDef: a bounded check of one function that is outside the verifier's reach.
+// It executes the real code through an overlay test; it is labelled bounded in the
+// evidence and never counted as a discharged obligation.
+type BoundedDef struct {
+	Name  string `json:"name"`
+	Pkg   string `json:"pkg"`
+	File  string `json:"file"` // test source under /verif/bounded
+	Bound string `json:"bound"`
+	Why   string `json:"why_not_proved"`
 }
 
 type KnownFinding struct {
@@ -61,7 +74,11 @@ func loadKnown() []KnownFinding {
 	return k
 }
 
+var boundedCasesRe = regexp.MustCompile(`BOUNDED-CASES (\d+)`)
+
 type violation struct {
+	boundedSrc string
+	boundedPkg string
 	obl       *OblResult
 	replay    string
 	confirmed bool
@@ -206,6 +223,30 @@ func cmdCheck(args []string) int {
 			}
 		}
 	}
+	// bounded stand-ins (never counted as obligations)
+	boundedResults := []map[string]any{}
+	for _, bd := range def.BoundedRuns {
+		src, err := os.ReadFile(filepath.Join(verifDir, "bounded", bd.File))
+		if err != nil {
+			toolErrs = append(toolErrs, "bounded "+bd.Name+": "+err.Error())
+			continue
+		}
+		tb := time.Now()
+		out, ok := runOverlayTestNamed(bd.Pkg, string(src), "TestVerifBounded", "zz_verif_bounded_test.go")
+		res := map[string]any{"name": bd.Name, "label": "bounded", "bound": bd.Bound, "why_not_proved": bd.Why, "passed": ok, "wall_s": round3(time.Since(tb).Seconds())}
+		if m := boundedCasesRe.FindStringSubmatch(out); m != nil {
+			res["cases"], _ = strconv.Atoi(m[1])
+		}
+		boundedResults = append(boundedResults, res)
+		if !ok {
+			if strings.Contains(out, "SPEC-VIOLATED") {
+				o := &OblResult{Name: "bounded." + bd.Name, Kind: "bounded", Status: "failed", Unit: bd.Pkg, Output: truncate(out, 3000), Src: bd.Bound}
+				viols = append(viols, &violation{obl: o, boundedSrc: string(src), boundedPkg: bd.Pkg})
+			} else {
+				toolErrs = append(toolErrs, "bounded "+bd.Name+" did not run: "+truncate(out, 600))
+			}
+		}
+	}
 	if len(toolErrs) > 0 && len(viols) == 0 {
 		for _, e := range toolErrs {
 			fmt.Printf("ERROR %s\n", e)
@@ -297,6 +338,7 @@ func cmdCheck(args []string) int {
 		"callee_contracts_used":  usedC,
 		"not_decided":            def.NotDecided,
 		"bounded_standins":       def.Bounded,
+		"bounded_results":        boundedResults,
 		"depends_on":             def.Depends,
 		"known_findings_hit":     knownHit,
 		"contract_files":         p.contractSource,
@@ -411,7 +453,15 @@ func makeReplay(p *Prog, id string, v *violation) (string, bool, string) {
 	}
 	confirmed := false
 	note := v.note
-	if o.Status == "failed" {
+	if v.boundedSrc != "" {
+		rep["replay_test"] = v.boundedSrc
+		rep["replay_pkg"] = v.boundedPkg
+		rep["replay_run"] = "TestVerifBounded"
+		rep["replay_output"] = o.Output
+		rep["confirmed_on_real_code"] = true
+		confirmed = true
+		note = "bounded check executed the real code: failing case in the replay output"
+	} else if o.Status == "failed" {
 		ok, out, test := replayOnRealCode(p, id, o)
 		rep["replay_test"] = test
 		rel, _ := splitUnit(o.Unit)
@@ -447,7 +497,11 @@ func cmdReplay(args []string) int {
 	fmt.Printf("obligation: %v\nclause: %v\nstatus: %v\nmodel: %v\n", rep["obligation"], rep["clause"], rep["status"], rep["model"])
 	if t, ok := rep["replay_test"].(string); ok && t != "" {
 		pkgDir, _ := rep["replay_pkg"].(string)
-		out, ok := runOverlayTest(pkgDir, t, "TestVerifReplay")
+		run, _ := rep["replay_run"].(string)
+		if run == "" {
+			run = "TestVerifReplay"
+		}
+		out, ok := runOverlayTest(pkgDir, t, run)
 		fmt.Println(out)
 		if !ok {
 			fmt.Printf("VIOLATION property=%v replay=%s\n", rep["property"], args[0])
@@ -462,15 +516,19 @@ func cmdReplay(args []string) int {
 
 // runOverlayTest injects a test file into a package of /repo through -overlay and runs it.
 func runOverlayTest(pkgRel, testSrc, run string) (string, bool) {
+	return runOverlayTestNamed(pkgRel, testSrc, run, "zz_verif_replay_test.go")
+}
+
+func runOverlayTestNamed(pkgRel, testSrc, run, fileName string) (string, bool) {
 	tmp, err := os.MkdirTemp("", "specv-replay-")
 	if err != nil {
 		return err.Error(), false
 	}
 	defer os.RemoveAll(tmp)
-	tf := filepath.Join(tmp, "zz_verif_replay_test.go")
+	tf := filepath.Join(tmp, fileName)
 	os.WriteFile(tf, []byte(testSrc), 0o644)
 	ov := map[string]any{"Replace": map[string]string{
-		filepath.Join(repoDir, pkgRel, "zz_verif_replay_test.go"): tf,
+		filepath.Join(repoDir, pkgRel, fileName): tf,
 	}}
 	// tun/client needs a placeholder for its embed directive
 	ph := filepath.Join(tmp, "index.html")
